@@ -281,6 +281,31 @@ func runC11(c *Ctx) {
 		}
 	}
 	R.Check(anyDominates(cfgNonNil, guardAt) && anyDominates(certsNonEmpty, guardAt), "C11.R1", "potentialConnUpgrade:S-only-with-certificates", c.at(sWrite), "'S' is sent only when a TLS configuration with at least one certificate exists", "dominated by TLSConfig != nil and len(Certificates) != 0", "the 'S' reply is not dominated by both the TLSConfig != nil and the certificates-present edges")
+	// crypto/tls also accepts configurations that supply their certificate through GetCertificate / GetConfigForClient
+	usesCallbacks := false
+	for _, b := range guardFn.Blocks {
+		for _, in := range b.Instrs {
+			if fa, ok := in.(*ssa.FieldAddr); ok {
+				if fr, ok := core.FieldOfAddr(fa); ok && fr.Struct != nil && fr.Struct.Obj().Pkg() != nil && fr.Struct.Obj().Pkg().Path() == "crypto/tls" && (fr.Name == "GetCertificate" || fr.Name == "GetConfigForClient") {
+					usesCallbacks = true
+				}
+			}
+		}
+	}
+	for _, ci := range core.Calls(guardFn) { // or a helper that looks at them
+		if h := core.StaticCallee(ci); h != nil && c.P.InPkg(h, "wire") {
+			for _, b := range h.Blocks {
+				for _, in := range b.Instrs {
+					if fa, ok := in.(*ssa.FieldAddr); ok {
+						if fr, ok := core.FieldOfAddr(fa); ok && (fr.Name == "GetCertificate" || fr.Name == "GetConfigForClient") {
+							usesCallbacks = true
+						}
+					}
+				}
+			}
+		}
+	}
+	R.Check(usesCallbacks, "C11.R1", "S-guard:callback-certificates", c.at(sWrite), "every TLS configuration that crypto/tls can serve a certificate from counts as 'certificates configured'", "the certificate test also considers GetCertificate / GetConfigForClient", "the certificate test looks at len(TLSConfig.Certificates) only: a configuration that supplies its certificate through GetCertificate or GetConfigForClient is answered with 'N' and the session silently continues in plaintext")
 	// the only other exit after an SSLRequest is the 'N' path
 	nCalls := callsIn(guardFn, calleeIs(sun))
 	if guardFn != pcu {
